@@ -3,7 +3,7 @@
 cd "$(dirname "$0")/.."
 tier=$1; shift
 # in a `vp run --with-repo` snapshot build against the repository snapshot, not /repo (which may be patched meanwhile)
-if [ -n "$VP_RUN_REPO" ] && [ "$(pwd)" != "/verif" ]; then sed -i "s#path = \"/repo\"#path = \"$VP_RUN_REPO\"#" harness/Cargo.toml; echo "using repo snapshot $VP_RUN_REPO"; fi
+if [ -n "$VP_RUN_REPO" ] && [ "$(pwd)" != "/verif" ]; then sed -i "s#path = \"/repo\"#path = \"$VP_RUN_REPO\"#" harness/Cargo.toml harness_neg/Cargo.toml; echo "using repo snapshot $VP_RUN_REPO"; fi
 for seed in "$@"; do
   for p in C01 C02 C03 C04 C05 C06 C07 C08 C09 C10 C11 C12 C13 C14 C15 C16 C17 C18 C19 C20; do
     t0=$(date +%s)
